@@ -162,8 +162,10 @@ def sensitivity(prop, rule_fn, seed=0, limit=None):
                 cands.append((name, pp, meta))
     rnd = random.Random(seed)
     rnd.shuffle(cands)
-    if limit:
-        cands = cands[:limit]
+    # the corpus has grown to several hundred changes: replay a seed-chosen sample, the changes seeded for this very property first
+    cands.sort(key=lambda c_: 0 if c_[2].get("property") == prop else 1)
+    total_cands = len(cands)
+    cands = cands[:(limit or 10)]
     res = {}
     os.makedirs(SCRATCH, exist_ok=True)
     lock = open(os.path.join(SCRATCH, "lock"), "w")
@@ -200,7 +202,8 @@ def sensitivity(prop, rule_fn, seed=0, limit=None):
         fcntl.flock(lock, fcntl.LOCK_UN)
         lock.close()
     det = sum(1 for r in res.values() if r.get("detected"))
-    return {"mutants": len(res), "detected": det, "not_applicable": sum(1 for r in res.values() if not r.get("applied")), "results": res}
+    return {"mutants": len(res), "detected": det, "not_applicable": sum(1 for r in res.values() if not r.get("applied")), "results": res,
+            "sample": "%d of the %d recorded changes that concern this property (seed-chosen; those seeded for it first); the whole corpus is replayed by tools/run_seeded.py" % (len(res), total_cands)}
 
 
 def run_property(prop, rule_fn, tier="quick", seed=0, level_text="", replay=None):
